@@ -18,7 +18,7 @@ import subprocess
 import common
 import pytrans
 
-ERRS = {"InvalidCommandError": "InvalidCommandError", "InvalidChecksumError": "InvalidChecksumError", "AdbTimeoutError": "AdbTimeoutError", "OverflowError": "OverflowError", "TypeError": "TypeError", "KeyError": "KeyError", "IndexError": "IndexError", "Empty": "Empty", "AttributeError": "AttributeError",
+ERRS = {"InvalidResponseError": "InvalidResponseError", "AdbCommandFailureException": "AdbCommandFailureException", "InvalidCommandError": "InvalidCommandError", "InvalidChecksumError": "InvalidChecksumError", "AdbTimeoutError": "AdbTimeoutError", "OverflowError": "OverflowError", "TypeError": "TypeError", "KeyError": "KeyError", "IndexError": "IndexError", "Empty": "Empty", "AttributeError": "AttributeError",
         "ValueError": "ValueError", "error": "StructError"}
 
 
@@ -430,6 +430,20 @@ def cases_stream(rng, n):
                     fi.recv_buffer = bytearray(rng.randbytes(rng.choice([0, 3, 8, 20])))
                     vals.update(filesync_info=fi, size=rng.choice([0, 8, 12, 100]), _=None)
                     vals["eff0"] = (rng.choice([constants.OKAY, constants.WRTE]), payload)
+                    if base.startswith("filesync_read_fn") or base.startswith("filesync_read_eff"):
+                        import struct as _struct
+                        fmt = rng.choice([constants.FILESYNC_LIST_FORMAT, constants.FILESYNC_PULL_FORMAT, constants.FILESYNC_STAT_FORMAT])
+                        fi2 = _FileSyncTransactionInfo(fmt, 64)
+                        fi2.send_buffer = bytearray()
+                        fi2.send_idx = rng.choice([0, 0, 9])
+                        nwords = _struct.calcsize(fmt) // 4
+                        rid = rng.choice([constants.DATA, constants.DONE, constants.FAIL, constants.STAT, constants.DENT, constants.OKAY, b"XXXX"])
+                        words = [_struct.unpack("<I", rid)[0]] + [rng.choice([0, 3, 2 ** 32 - 1]) for _ in range(nwords - 1)]
+                        hdrb = bytearray(_struct.pack("<%dI" % nwords, *words))
+                        if rng.random() < 0.1:
+                            hdrb = hdrb[:-1]
+                        vals.update(filesync_info=fi2, expected_ids=rng.choice([[constants.DATA, constants.DONE], [constants.STAT], [constants.DENT, constants.DONE], [constants.OKAY]]),
+                                    eff0=None, eff1=hdrb, eff2=bytearray(rng.choice([b"", b"nope", b"\xff\xfe"])))
                 elif base.startswith("read_until_close"):
                     vals["eff0"] = (cmdb, payload)
                 elif base.startswith("read_until"):
